@@ -196,6 +196,25 @@ func specAddrSet(h *TracerouteHop) bool { return len(h.IPAddress) != 0 }
 //@ ensures[C18.enrich.hops] forall(i, 0, len(r.Traceroute.Runs), forall(j, 0, len(r.Traceroute.Runs[i].Hops), r.Traceroute.Runs[i].Hops[j].ReverseDns == nil || dnsAns(iptext(string(r.Traceroute.Runs[i].Hops[j].IPAddress)), r.Traceroute.Runs[i].Hops[j].ReverseDns)))
 //@ ensures[C18.enrich.runs] len(r.Traceroute.Runs) == old(len(r.Traceroute.Runs))
 //@ modifies elemtype(TracerouteRun).Destination.ReverseDns, TracerouteHop.ReverseDns, ghost clock, ghost cache.has, ghost cache.tag, ghost cache.ref, ghost cache.exp, ghost dns.ans, ghost dns.len, ghost dns.n
+// completeness of the enrichment: every address of the document (destinations and hops, duplicates in any byte form
+// included) is handed to the resolver fan-out, and every hop/destination then carries exactly the fan-out's answer
+// for its own bytes
+//@ before GetReverseDnsForIPs assert[C18.enrich.all.dest] forall(a, 0, len(r.Traceroute.Runs), exists(k, 0, len(ips), string(ips[k]) == string(r.Traceroute.Runs[a].Destination.IPAddress)))
+//@ before GetReverseDnsForIPs assert[C18.enrich.all.hops] forall(a, 0, len(r.Traceroute.Runs), forall(b, 0, len(r.Traceroute.Runs[a].Hops), exists(k, 0, len(ips), string(ips[k]) == string(r.Traceroute.Runs[a].Hops[b].IPAddress))))
+//@ loop 1 invariant[b.idx]   0 <= range_i && range_i <= len(r.Traceroute.Runs)
+//@ loop 1 invariant[b.dest]  forall(a, 0, range_i, exists(k, 0, len(ips), string(ips[k]) == string(r.Traceroute.Runs[a].Destination.IPAddress)))
+//@ loop 1 invariant[b.hops]  forall(a, 0, range_i, forall(b, 0, len(r.Traceroute.Runs[a].Hops), exists(k, 0, len(ips), string(ips[k]) == string(r.Traceroute.Runs[a].Hops[b].IPAddress))))
+//@ loop 2 invariant[c.idx]   0 <= rangeidx(1) && rangeidx(1) < len(r.Traceroute.Runs) && 0 <= range_i && range_i <= len(r.Traceroute.Runs[rangeidx(1)].Hops)
+//@ loop 2 invariant[c.dest]  forall(a, 0, rangeidx(1)+1, exists(k, 0, len(ips), string(ips[k]) == string(r.Traceroute.Runs[a].Destination.IPAddress)))
+//@ loop 2 invariant[c.hops]  forall(a, 0, rangeidx(1), forall(b, 0, len(r.Traceroute.Runs[a].Hops), exists(k, 0, len(ips), string(ips[k]) == string(r.Traceroute.Runs[a].Hops[b].IPAddress))))
+//@ loop 2 invariant[c.cur]   forall(b, 0, range_i, exists(k, 0, len(ips), string(ips[k]) == string(r.Traceroute.Runs[rangeidx(1)].Hops[b].IPAddress)))
+//@ ensures[C18.enrich.map.dest] forall(a, 0, len(r.Traceroute.Runs), r.Traceroute.Runs[a].Destination.ReverseDns == lastres(GetReverseDnsForIPs, 0)[string(r.Traceroute.Runs[a].Destination.IPAddress)])
+//@ ensures[C18.enrich.map.hops] forall(a, 0, len(r.Traceroute.Runs), forall(b, 0, len(r.Traceroute.Runs[a].Hops), r.Traceroute.Runs[a].Hops[b].ReverseDns == lastres(GetReverseDnsForIPs, 0)[string(r.Traceroute.Runs[a].Hops[b].IPAddress)]))
+//@ loop 3 invariant[o.mdest] forall(a, 0, i, r.Traceroute.Runs[a].Destination.ReverseDns == lastres(GetReverseDnsForIPs, 0)[string(r.Traceroute.Runs[a].Destination.IPAddress)])
+//@ loop 3 invariant[o.mhops] forall(a, 0, i, forall(b, 0, len(r.Traceroute.Runs[a].Hops), r.Traceroute.Runs[a].Hops[b].ReverseDns == lastres(GetReverseDnsForIPs, 0)[string(r.Traceroute.Runs[a].Hops[b].IPAddress)]))
+//@ loop 4 invariant[i.mdest] forall(a, 0, i+1, r.Traceroute.Runs[a].Destination.ReverseDns == lastres(GetReverseDnsForIPs, 0)[string(r.Traceroute.Runs[a].Destination.IPAddress)])
+//@ loop 4 invariant[i.mhops] forall(a, 0, i, forall(b, 0, len(r.Traceroute.Runs[a].Hops), r.Traceroute.Runs[a].Hops[b].ReverseDns == lastres(GetReverseDnsForIPs, 0)[string(r.Traceroute.Runs[a].Hops[b].IPAddress)]))
+//@ loop 4 invariant[i.mcur]  forall(b, 0, j, r.Traceroute.Runs[i].Hops[b].ReverseDns == lastres(GetReverseDnsForIPs, 0)[string(r.Traceroute.Runs[i].Hops[b].IPAddress)])
 //@ loop 3 invariant[o.idx]   0 <= i && i <= len(r.Traceroute.Runs)
 //@ loop 3 invariant[o.dest]  forall(a, 0, i, (r.Traceroute.Runs[a].Destination.ReverseDns == nil || dnsAns(iptext(string(r.Traceroute.Runs[a].Destination.IPAddress)), r.Traceroute.Runs[a].Destination.ReverseDns)))
 //@ loop 3 invariant[o.hops]  forall(a, 0, i, forall(b, 0, len(r.Traceroute.Runs[a].Hops), (r.Traceroute.Runs[a].Hops[b].ReverseDns == nil || dnsAns(iptext(string(r.Traceroute.Runs[a].Hops[b].IPAddress)), r.Traceroute.Runs[a].Hops[b].ReverseDns))))
